@@ -94,6 +94,22 @@ func flushStats(res *lib.Result) {
 	}
 }
 
+// directOK runs the input through HandleReader; if the server panics or hangs on it, that is recorded as a
+// violation with the input as replay and the caller must not push the same input through a transport (a
+// panic inside a hijacked WebSocket connection leaves the connection open and dead: the client would only
+// find out by waiting for its own deadline).
+func (rn *runner) directOK(w *World, in []byte, via string) (Obs, bool) {
+	o := w.handle(in)
+	if o.Panicked || o.Hung {
+		for _, v := range judge(w, in, o) {
+			rn.res.Violate(lib.Violation{Sig: v.Sig, What: "[before " + via + "] " + v.What, Replay: mkReplay(w, in, "")})
+		}
+		rn.res.Hit("transport:skipped-because-HandleReader-crashes")
+		return o, false
+	}
+	return o, true
+}
+
 func firstLines(s string, n int) string {
 	ls := strings.Split(s, "\n")
 	if len(ls) > n {
@@ -496,6 +512,14 @@ func main() {
 		concurrentStage(res, f.Seed, false)
 		lib.Finish(f, res)
 	}
+	// The harness never ends without a result: whatever the server under test does (panic, hang, dropped
+	// connections), what has been found so far is written when the overall deadline expires.
+	go func() {
+		time.Sleep(time.Duration(f.Scale(420, 3300)) * time.Second)
+		res.Fatalf("harness deadline expired: a stage did not finish (see the violations recorded so far)")
+		flushStats(res)
+		lib.Finish(f, res)
+	}()
 	drv, err := lib.StartDriver(f.Driver)
 	if err != nil {
 		res.Fatalf("driver: %v", err)
@@ -587,6 +611,11 @@ func main() {
 		for c := 0; c*chunk < n; c++ {
 			jobs = append(jobs, job{spec, randomInputs(uint64(i*100000+c), min(chunk, n-c*chunk))})
 		}
+	}
+	// 1a. parse errors: leading blanks x truncation points x syntax errors at every offset
+	for part := 0; part < 4; part++ {
+		part := part
+		jobs = append(jobs, job{fixedWorld(part == 3, 2), func(w *World) [][]byte { return parseErrorInputs(part, 4, f.Thorough()) }})
 	}
 	// 1b. handlers that return unmarshallable values or panic
 	for i, pool := range []int{1, 3} {
